@@ -31,6 +31,12 @@ prop(
         dict(engine="segmon", profile="release", args=["--judge", "fold", "--mode", "exhaustive"], group="exhaustive"),
         dict(engine="segmon", profile="dev", args=["--judge", "fold", "--mode", "random", "--cases-per-weight", "400"],
              group="random", label="segmon/dev/fold random (overflow checks on)"),
+        dict(engine="segmon", profile="release", args=["--judge", "fold", "--mode", "sleeper"], group="sleeper",
+             label="segmon/release/fold sleeper (query, exactly 2^8 / 2^16 (+-1) non-querying operations, same query again)"),
+        dict(engine="segmon", profile="dev", args=["--judge", "fold", "--mode", "sleeper", "--reps", "1"], group="sleeper",
+             label="segmon/dev/fold sleeper"),
+        dict(engine="segmon", profile="release", args=["--judge", "fold", "--mode", "huge"], group="huge",
+             label="segmon/release/fold huge (2^20+1 .. 2^23+5 elements, operations at the two ends)"),
     ],
     floor=dict(quick=100_000, thorough=2_000_000),
     counter_floors=dict(quick=dict(asks_checked=10_000_000, op_modify=500_000, op_set=200_000, pending_lazy_patterns=100_000),
@@ -65,6 +71,12 @@ prop(
         dict(engine="segmon", profile="release", args=["--judge", "search", "--mode", "exhaustive"], group="exhaustive"),
         dict(engine="segmon", profile="dev", args=["--judge", "search", "--mode", "random", "--cases-per-weight", "400"],
              group="random", label="segmon/dev/search random (overflow checks on)"),
+        dict(engine="segmon", profile="release", args=["--judge", "search", "--mode", "sleeper"], group="sleeper",
+             label="segmon/release/search sleeper (query, exactly 2^8 / 2^16 (+-1) non-querying operations, same query again)"),
+        dict(engine="segmon", profile="dev", args=["--judge", "search", "--mode", "sleeper", "--reps", "1"], group="sleeper",
+             label="segmon/dev/search sleeper"),
+        dict(engine="segmon", profile="release", args=["--judge", "search", "--mode", "huge"], group="huge",
+             label="segmon/release/search huge (2^20+1 .. 2^23+5 elements, operations at the two ends)"),
     ],
     floor=dict(quick=100_000, thorough=2_000_000),
     counter_floors=dict(quick=dict(searches_checked=10_000_000, pred_args_checked=30_000_000, search_outcomes=6),
@@ -244,6 +256,9 @@ prop(
         dict(engine="dsumon", profile="release", args=["--mode", "adversarial", "--n", "4000000"], group="adversarial", tiers=("thorough",)),
         dict(engine="dsumon", profile="dev", args=["--mode", "random", "--cases", "30000"], group="random",
              label="dsumon/dev/random (overflow + bounds checks on)"),
+        dict(engine="dsumon", profile="release", args=["--mode", "sleeper"], group="sleeper",
+             label="dsumon/release/sleeper (lookup, exactly 2^8 / 2^16 (+-1) unions or resets that never mention the vertex, lookup again)"),
+        dict(engine="dsumon", profile="dev", args=["--mode", "sleeper"], group="sleeper", label="dsumon/dev/sleeper"),
     ],
     floor=dict(quick=500_000, thorough=5_000_000),
     counter_floors=dict(quick=dict(forest_checks=10_000_000, un_checked=5_000_000, par_checked=20_000_000, checkpoints=300, resets=100_000, clones=100_000)),
